@@ -300,6 +300,14 @@ impl ModuleType {
                                 input.user_data().source_path()
                             );
 
+                            if export.contains(ident.name()) {
+                                return Err(vec![new_err(
+                                    ident_node.as_span(),
+                                    &input.user_data().get_source_file_name(),
+                                    format!("this module already exports a member named `{}`", ident.name()),
+                                )]);
+                            }
+
                             export.add(ident);
                         }
                     }
@@ -309,6 +317,15 @@ impl ModuleType {
                                 "Gen. mod {:?} -- adding assignment {assignment:?}",
                                 input.user_data().source_path()
                             );
+
+                            // a module exports a name once; the second export would fail when the module runs
+                            if export.contains(assignment.name()) {
+                                return Err(vec![new_err(
+                                    child.as_span(),
+                                    &input.user_data().get_source_file_name(),
+                                    format!("this module already exports a member named `{}`", assignment.name()),
+                                )]);
+                            }
 
                             export.add(assignment)
                         }
